@@ -5,6 +5,9 @@ HERE = os.path.dirname(os.path.dirname(os.path.abspath(__file__)))
 ALL = ["C%02d" % i for i in range(1, 21)]
 
 CHECKS = {
+ "C20": dict(cat="exploration", tech="exactly-once / ordering history monitor: token-carrying HTTP requests against the real .web server and token-free JSON message sequences against the real .ws client, with a Klong-side call log written by harness callables",
+   text="Per case a real .web server is started on an ephemeral loopback port with a generated route table (<=3 GET, <=3 POST, named handlers) and driven one request at a time with good requests (parameter dictionaries: empty, several keys, URL-encoding-sensitive, non-ASCII, quotes/newlines), unknown paths, wrong methods, a failing handler and handler redefinitions; per request the handler-invocation count, the logged parameter dictionary, status and body are judged, then .webc and a probe of the port. Per websocket case the harness-owned server pushes a sequence over all JSON kinds and the client sends values: delivery exactly once, in order, decoded, and the JSON text of sent values are judged. Held on the sequences observed.",
+   note="one request at a time; handlers mention all parameters they receive; body text = Python str() of the handler result.", ref="DESIGN.md §4 C20"),
  "C14": dict(cat="exploration", tech="history monitor at the client boundary (call/return per caller thread, token-carrying fabricated responses) over the real NetworkClient on harness-owned in-memory streams; logical hang criterion (no live listener task); real-TCP race scenarios under sys.monitoring yield injection",
    text="The real NetworkClient is driven over in-memory streams on which the harness plays the server: all arrival orders of up to three concurrent calls x fragmentation patterns x cut classes (inside id / length / body, between frames, none) x number of responses delivered before the loss x loss before send x a locally initiated close acknowledged while calls are unanswered x a late call after the loss. Every caller must return exactly its own response or raise; a caller still blocked when no listener task exists is a hang. Real loopback pairs (server evaluation fails, .clic and .srv(0) racing with pending calls, call after close) run under seeded yield injection on the multi-threaded lines. Held on the scenarios observed; 'never hangs' is decided as logical quiescence, not by a proof.",
    note="the exception type of a failed call is not prescribed; real-TCP scenarios each run in their own process (module-level server singleton).", ref="DESIGN.md §4 C14"),
